@@ -21,7 +21,8 @@ for name, t in sorted(T.TARGETS.items()):
         b = build.build_target(t2)
     except SystemExit as e:
         print('skip', name, e); continue
-    env = dict(os.environ, RC_PARAMS='seed=7 max_success=%d' % n, LLVM_PROFILE_FILE='.build/coverage/%s.profraw' % name, TZ='UTC')
+    env = dict(os.environ, RC_PARAMS='seed=7 max_success=%d' % n, LLVM_PROFILE_FILE='.build/coverage/%s.profraw' % name, TZ='UTC',
+               VERIF_KNOWN=','.join(k['id'] for k in json.load(open('known_findings.json'))['findings'] if k.get('status') == 'known'))
     env.update(t.get('env', {}))
     env.pop('ASAN_OPTIONS', None)
     r = subprocess.run([b, '--stats', '.build/coverage/%s.stats' % name], env=env, stdout=subprocess.DEVNULL, stderr=subprocess.DEVNULL)
